@@ -130,12 +130,13 @@ Proof.
     + cbn in Hn. lia.
 Qed.
 
-(* elements: each reads back exactly whatever follows, starts with the tag; then something that is not this tag *)
-Lemma vec_tagged_next ls e u tg (xs : list value) (gs : list bytes) :
+(* elements: each reads back exactly whatever follows; the loop stops at r because the element reader fails there *)
+Lemma vec_exact_gen ls e u tag (xs : list value) (gs : list bytes) r :
   length xs = length gs ->
-  (forall k x g, nth_error xs k = Some x -> nth_error gs k = Some g -> g <> [] /\ exact_strict ls e u (Some tg) x g) ->
-  (forall fuel r, (depth u <= fuel)%nat -> next_ok tg r -> exists er, dec fuel ls e u (Some tg) r = Err er) ->
-  exact_next ls e (TVec u) tg (VList xs) (concat gs).
+  (forall k x g, nth_error xs k = Some x -> nth_error gs k = Some g -> g <> [] /\ exact_strict ls e u tag x g) ->
+  (forall fuel, (depth u <= fuel)%nat -> exists er, dec fuel ls e u tag r = Err er) ->
+  enc ls e (TVec u) tag (VList xs) = Ok (concat gs) /\
+  forall fuel, (depth (TVec u) <= fuel)%nat -> dec fuel ls e (TVec u) tag (concat gs ++ r) = Ok (VList xs, r).
 Proof.
   intros Hl He Hfail. split.
   - rewrite enc_vec_unfold. revert gs Hl He. induction xs as [|x xs IH]; intros gs Hl He.
@@ -143,11 +144,11 @@ Proof.
     + destruct gs as [|g gs]; [discriminate|]. destruct (He 0%nat x g eq_refl eq_refl) as [_ [Hx _]].
       rewrite Hx. cbn [bind]. rewrite (IH gs); [reflexivity|cbn in Hl; lia|].
       intros k x' g' H1 H2. apply (He (S k) x' g'); assumption.
-  - intros fuel r Hf Hn. rewrite depth_vec in Hf. destruct fuel as [|f]; [lia|]. cbn [dec].
-    rewrite (vec_loop_elements (dec f ls e u (Some tg)) xs gs r (S (length (concat gs ++ r))) []); try assumption.
+  - intros fuel Hf. rewrite depth_vec in Hf. destruct fuel as [|f]; [lia|]. cbn [dec].
+    rewrite (vec_loop_elements (dec f ls e u tag) xs gs r (S (length (concat gs ++ r))) []); try assumption.
     + reflexivity.
     + intros k x g H1 H2. destruct (He k x g H1 H2) as [Hne [_ Hd]]. split; [exact Hne|]. intros rest. apply Hd. lia.
-    + apply Hfail; [lia|exact Hn].
+    + apply Hfail. lia.
     + (* every element has at least one byte *)
       assert (G : (length xs <= length (concat gs))%nat).
       { clear -Hl He. revert gs Hl He. induction xs as [|x xs IH]; intros gs Hl He; [cbn; lia|].
@@ -156,6 +157,17 @@ Proof.
         { apply IH; [cbn in Hl; lia|]. intros k x' g' H1 H2. apply (He (S k) x' g'); assumption. }
         destruct g; [congruence|]. cbn [length]. lia. }
       rewrite app_length. lia.
+Qed.
+
+Lemma vec_tagged_next ls e u tg (xs : list value) (gs : list bytes) :
+  length xs = length gs ->
+  (forall k x g, nth_error xs k = Some x -> nth_error gs k = Some g -> g <> [] /\ exact_strict ls e u (Some tg) x g) ->
+  (forall fuel r, (depth u <= fuel)%nat -> next_ok tg r -> exists er, dec fuel ls e u (Some tg) r = Err er) ->
+  exact_next ls e (TVec u) tg (VList xs) (concat gs).
+Proof.
+  intros Hl He Hfail. split.
+  - apply (vec_exact_gen ls e u (Some tg) xs gs [] Hl He). intros fuel Hf. apply Hfail; [exact Hf|]. unfold next_ok. cbn. exact I.
+  - intros fuel r Hf Hn. apply (vec_exact_gen ls e u (Some tg) xs gs r Hl He); [|exact Hf]. intros fuel' Hf'. apply Hfail; assumption.
 Qed.
 
 (* a frame with a tag fails (WrongTag / IncompleteData) on bytes that do not start with that tag *)
